@@ -15,6 +15,7 @@ def c01(run):
     run.format_theorems(Q(run, 1, 6))
     wire_design(run, [])
     run.trace("roundtrip-canon", Q(run, 4, 200))
+    run.trace("big-frames", Q(run, 4, 12), types=["sse.SseBinary", "szse.SzseBinary", "risk.RcBinary", "sample.RootPacket", "bse.BjseBinary"], seed_off=300, chunk=30)
     run.trace("stream", Q(run, 2, 30), seed_off=100)
     run.assumptions += ["canonical domain decided by Canonical(T, v) in Codec.tla", "self-computed fields compared with the object the encoder left behind (their correctness is C04/C05)"]
     return run.finish(RULE_TRACE)
@@ -27,6 +28,7 @@ def c02(run):
     run.trace("tables", Q(run, 1, 6), seed_off=200)
     path, st = run.child_trace(run.spec_images(Q(run, 2, 40), reencode=False), "spec-images")
     run.judge(path, st, "spec-images")
+    run.trace("prim-sweep", Q(run, 1, 2), seed_off=400, chunk=600)
     run.trace("registry-frames", Q(run, 20, 1000), types=["sse.SseBinary", "szse.SzseBinary", "sample.RootPacket"], seed_off=300)
     run.assumptions += ["the pinned schema was frozen from the pinned commit (the .pdsl sources are not in the repository); byte order is per protocol, taken from the scalar fields"]
     return run.finish(RULE_TRACE)
@@ -63,7 +65,7 @@ def c05(run):
     run.trace("history", Q(run, 4, 40), types=frames, seed_off=50)
     run.trace("encode-any", Q(run, 30, 300), types=frames, seed_off=100, small=True)
     run.trace("tables", Q(run, 1, 3), types=frames, seed_off=200, small=True)
-    run.trace("big-frames", Q(run, 3, 12), types=frames, seed_off=300, chunk=30)
+    run.trace("big-frames", Q(run, 4, 12), types=frames, seed_off=300, chunk=30)
     # the services are shared by all encoders: frames encoded by 16 goroutines at once must carry correct checksums too
     run.parallel("history", Q(run, 30, 200), goroutines=16, rounds=2, seed_off=400, types=frames, race_filter="codec/checksum.go", prop_clauses="C05")
     run.assumptions += ["the four checksum services are registered (library start-up state)"]
@@ -85,6 +87,7 @@ def c07(run):
     wire_design(run, [])
     run.trace("stream", Q(run, 3, 120))
     run.trace("long-lists", Q(run, 1, 2), seed_off=100, chunk=8)
+    run.trace("prim-sweep", Q(run, 1, 2), seed_off=200, chunk=600)
     return run.finish(RULE_WIRE + RULE_TRACE + "long-lists: lists whose count x element size crosses 65,536 followed by a second message.")
 
 
